@@ -31,6 +31,8 @@ def run(ctx):
     r20_1(ctx, rep, roles, adm, app)
     r20_2(ctx, rep, roles, app)
     r20_3(ctx, rep, roles)
+    from .. import identity
+    identity.check(ctx, rep, "C20", "R20.4", ["status-eq", "id-eq"])
 
 
 def r20_1(ctx, rep, roles, adm, app):
